@@ -20,7 +20,6 @@ import (
 	"os"
 	"path/filepath"
 	"runtime/debug"
-	"runtime/pprof"
 	"sort"
 	"strconv"
 	"strings"
@@ -781,6 +780,7 @@ type c18netPlan struct {
 	ChurnRoles  []string       `json:"churn_roles"`
 	Factories   int            `json:"factories"`
 	QuietMs     int            `json:"quiet_ms"`
+	ChurnGapMs  [2]int         `json:"churn_gap_ms"` // pause between injections of each of the 2 injectors during churn
 }
 
 type c18netResult struct {
@@ -834,15 +834,18 @@ func c18startNode(spec c18agentSpec, rec *c18rec, factories int) (*c18node, erro
 func c18topologyNames(a *gossip.Agent, roles []string) []string {
 	var names []string
 	for _, role := range roles {
-		l := a.VerifTopology().Get(role)
+		topo := a.VerifTopology()
+		l := topo.Get(role)
 		if l == nil {
 			continue
 		}
+		topo.Lock() // Update/Delete mutate the list under this lock
 		for _, p := range l.L {
 			if p != nil {
 				names = append(names, p.Name)
 			}
 		}
+		topo.Unlock()
 	}
 	sort.Strings(names)
 	return names
@@ -864,11 +867,6 @@ func c18netWorker(args []string) int {
 		return 2
 	}
 	out := args[1]
-	if pp := os.Getenv("QV_PPROF"); pp != "" {
-		f, _ := os.Create(pp)
-		pprof.StartCPUProfile(f)
-		defer pprof.StopCPUProfile()
-	}
 	rec := newC18rec()
 	res := &c18netResult{Phase: "init"}
 	var resMu sync.Mutex
@@ -1002,7 +1000,7 @@ func c18netWorker(args []string) int {
 		for _, n := range nodes {
 			selfCheck(n, ever, 50)
 		}
-		q := quiet(plan.QuietMs, 60*time.Second)
+		q := quiet(plan.QuietMs, 90*time.Second)
 		resMu.Lock()
 		res.QuietReached = append(res.QuietReached, q)
 		resMu.Unlock()
@@ -1030,7 +1028,7 @@ func c18netWorker(args []string) int {
 					injMu.Unlock()
 					_ = nodes[in.At].agent.Out.Publish(&gossip.Message{Kind: gossip.BatchMessageType, TTL: in.TTL, Payload: c18batchPayload(in.Batch, in.Snaps, rr)})
 					selfCheck(nodes[in.At], ever, 5)
-					time.Sleep(time.Duration(rr.Range(10, 30)) * time.Millisecond)
+					time.Sleep(time.Duration(rr.Range(plan.ChurnGapMs[0], plan.ChurnGapMs[1])) * time.Millisecond)
 				}
 			}(g)
 		}
@@ -1056,7 +1054,7 @@ func c18netWorker(args []string) int {
 		}
 		atomic.StoreInt32(&stop, 1)
 		iwg.Wait()
-		q := quiet(plan.QuietMs, 60*time.Second)
+		q := quiet(plan.QuietMs, 90*time.Second)
 		resMu.Lock()
 		res.QuietReached = append(res.QuietReached, q)
 		resMu.Unlock()
@@ -1093,8 +1091,11 @@ func c18netWorker(args []string) int {
 }
 
 // c18makeNetPlan builds a cluster plan. basePort..basePort+19 belong to this plan.
-func c18makeNetPlan(r *lib.Rand, idx, basePort int, thorough bool) *c18netPlan {
-	p := &c18netPlan{ID: fmt.Sprintf("net-%02d", idx), Seed: r.Uint64(), Factories: r.Pick(1, 2), QuietMs: 1200}
+func c18makeNetPlan(r *lib.Rand, idx, basePort int, thorough, race bool) *c18netPlan {
+	p := &c18netPlan{ID: fmt.Sprintf("net-%02d", idx), Seed: r.Uint64(), Factories: r.Pick(1, 2), QuietMs: 1200, ChurnGapMs: [2]int{10, 30}}
+	if race {
+		p.ChurnGapMs = [2]int{50, 120} // the race build is 5-10x slower: keep the backlog short
+	}
 	n := []int{3, 4, 6, 5}[idx%4]
 	nroles := r.Range(2, 4)
 	if n == 3 && idx%8 == 0 {
@@ -1199,8 +1200,10 @@ func c18evalNet(c *lib.Ctx, p *c18netPlan, res *c18netResult, label string) {
 				c.Violation("C18:ttl:not-lowered", fmt.Sprintf("%s %s: batch with initial TTL %d was received with TTL %d at %s: a hop did not lower it", label, p.ID, in.TTL, rc.TTL, rc.Agent),
 					detail(map[string]interface{}{"inject": in, "receptions": recs}))
 			case !legit[rc.TTL]:
-				c.Violation("C18:ttl:hop-not-minus-one", fmt.Sprintf("%s %s: batch with initial TTL %d was received with TTL %d at %s but no sender held it with TTL %d", label, p.ID, in.TTL, rc.TTL, rc.Agent, rc.TTL+1),
-					detail(map[string]interface{}{"inject": in, "receptions": recs}))
+				// lowered, but not by exactly one from any holder: the property only says "lowers" -> information
+				c.Count("receptions_lowered_by_more_than_one", 1)
+			default:
+				c.Count("receptions_exactly_one_below_a_holder", 1)
 			}
 		}
 		// at most once per agent and factory
@@ -1295,16 +1298,15 @@ func c18ttlList(recs []c18recv) []int {
 }
 
 // c18runNet runs one cluster plan in a child (up to 3 attempts on setup trouble) and evaluates it.
-func c18runNet(c *lib.Ctx, r *lib.Rand, idx int, race bool, slot *int) {
+func c18runNet(c *lib.Ctx, seeds []uint64, idx int, race bool, slots []int) {
 	label := "plain"
 	if race {
 		label = "race"
 	}
 	for attempt := 0; attempt < 3; attempt++ {
-		basePort := 21000 + ((*slot) % 49 * 20)
-		*slot++
-		p := c18makeNetPlan(lib.NewRand(r.Uint64()), idx, basePort, c.Thorough())
-		if c.Only != "" && c.Only != p.ID {
+		basePort := 21000 + (slots[attempt] % 49 * 20)
+		p := c18makeNetPlan(lib.NewRand(seeds[attempt]), idx, basePort, c.Thorough(), race)
+		if !onlyMatch(c, p.ID) {
 			return
 		}
 		dir := c.Dir(fmt.Sprintf("net-%s-%d-%d", label, idx, attempt))
@@ -1395,7 +1397,7 @@ func RunC18(c *lib.Ctx) {
 		}
 	}
 	parallel(nd, 6, func(i int) {
-		if c.Only != "" && c.Only != dplans[i].ID {
+		if !onlyMatch(c, dplans[i].ID) {
 			return
 		}
 		c18runDedup(c, dplans[i])
@@ -1410,52 +1412,61 @@ func RunC18(c *lib.Ctx) {
 		rplans[i] = &c18routePlan{ID: fmt.Sprintf("route-%03d", i), Steps: c.Q(300, 1000), Routes: 24, Roles: rr.Range(1, 4), Names: rr.Pick(1, 2, 3, 6), Seed: rr.Uint64()}
 	}
 	parallel(nr, 4, func(i int) {
-		if c.Only != "" && c.Only != rplans[i].ID {
+		if !onlyMatch(c, rplans[i].ID) {
 			return
 		}
 		c18runRouteModel(c, rplans[i])
 	})
 
 	mark("route-model")
-	// ---- (c2) concurrent routing / topology events, plain and race children
+	// ---- (c2) routing concurrent with topology events (plain and race children) and (a) live clusters:
+	// independent child processes, run up to 4 at a time
+	var jobs []func()
 	if c.Only == "" || c.Only == "topo" {
 		calls := c.Q(100000, 400000)
 		nruns := c.Q(1, 4)
 		for k := 0; k < nruns; k++ {
-			dir := c.Dir(fmt.Sprintf("topo-plain-%d", k))
-			out := filepath.Join(dir, "result.json")
-			cr := runChild(dir, false, 180*time.Second, "c18topo", strconv.FormatUint(uint64(c.Seed)*1000+uint64(k), 10), strconv.Itoa(calls), "8", "3", out)
-			c18evalTopoChild(c, fmt.Sprintf("topo-plain-%d", k), cr, out)
+			k := k
+			jobs = append(jobs, func() {
+				dir := c.Dir(fmt.Sprintf("topo-plain-%d", k))
+				out := filepath.Join(dir, "result.json")
+				cr := runChild(dir, false, 180*time.Second, "c18topo", strconv.FormatUint(uint64(c.Seed)*1000+uint64(k), 10), strconv.Itoa(calls), "8", "3", out)
+				c18evalTopoChild(c, fmt.Sprintf("topo-plain-%d", k), cr, out)
+			})
 		}
-		mark("topo-plain")
 		if qvBin(true) != "" {
 			for k := 0; k < nruns; k++ {
-				dir := c.Dir(fmt.Sprintf("topo-race-%d", k))
-				out := filepath.Join(dir, "result.json")
-				cr := runChild(dir, true, 300*time.Second, "c18topo", strconv.FormatUint(uint64(c.Seed)*1000+uint64(k)+500, 10), strconv.Itoa(c.Q(40000, 200000)), "8", "3", out)
-				c18evalTopoChild(c, fmt.Sprintf("topo-race-%d", k), cr, out)
+				k := k
+				jobs = append(jobs, func() {
+					dir := c.Dir(fmt.Sprintf("topo-race-%d", k))
+					out := filepath.Join(dir, "result.json")
+					cr := runChild(dir, true, 400*time.Second, "c18topo", strconv.FormatUint(uint64(c.Seed)*1000+uint64(k)+500, 10), strconv.Itoa(c.Q(40000, 200000)), "8", "3", out)
+					c18evalTopoChild(c, fmt.Sprintf("topo-race-%d", k), cr, out)
+				})
 			}
 		} else {
 			c.Inconclusive("C18: no race binary (QV_RACE_BIN): the consistency clause could not be checked under the race detector")
 		}
 	}
-
-	mark("topo-race")
-	// ---- (a) live clusters
 	rn := c.Rand("net")
-	slot := int((uint64(c.Seed)*7 + uint64(os.Getpid())) % 49)
+	slot0 := int((uint64(c.Seed)*7 + uint64(os.Getpid())) % 49)
 	nclusters := c.Q(3, 12)
-	for i := 0; i < nclusters; i++ {
-		c18runNet(c, rn, i, false, &slot)
-	}
-	mark("net-plain")
+	nrace := 0
 	if qvBin(true) != "" && c.Only == "" {
-		nrace := c.Q(1, 3)
-		for i := 0; i < nrace; i++ {
-			c18runNet(c, rn, i+1, true, &slot)
+		nrace = c.Q(1, 3)
+	}
+	for i := 0; i < nclusters+nrace; i++ {
+		i := i
+		seeds := []uint64{rn.Uint64(), rn.Uint64(), rn.Uint64()}
+		slots := []int{slot0 + i, slot0 + nclusters + nrace + i, slot0 + 2*(nclusters+nrace) + i}
+		if i < nclusters {
+			jobs = append(jobs, func() { c18runNet(c, seeds, i, false, slots) })
+		} else {
+			jobs = append(jobs, func() { c18runNet(c, seeds, i-nclusters+1, true, slots) })
 		}
 	}
-	mark("net-race")
+	parallel(len(jobs), 4, func(i int) { jobs[i]() })
+	mark("children")
 }
 
 func init() {
